@@ -646,12 +646,13 @@ class merge_plan:
                 # not in the plan thus far.
                 matches = caching_iter(dbs.itermatch(atom))
                 if matches:
-                    choices = choice_point(atom, matches)
-                    # ignore what dropped out, at this juncture we don't care.
-                    choices.reduce_atoms(
-                        self.insoluble,
+                    choices = choice_point(
+                        atom,
+                        matches,
                         skip_built_depends=not self.process_built_depends,
                     )
+                    # ignore what dropped out, at this juncture we don't care.
+                    choices.reduce_atoms(self.insoluble)
                     if not choices:
                         # and was intractable because it has a hard dep on an
                         # unsolvable atom.
